@@ -23,6 +23,7 @@ type Worker struct {
 	stdin  interface{ Close() error }
 	dead   chan struct{} // closed when the process has exited
 	state  *os.ProcessState
+	deadAt time.Time
 	stderr string // path
 	stdout *lockedBuf
 }
@@ -133,6 +134,7 @@ func startWorker() (*Worker, error) {
 			}
 			_ = cmd.Wait()
 			w.state = cmd.ProcessState
+			w.deadAt = time.Now()
 			close(w.dead)
 		}()
 		select {
@@ -234,6 +236,8 @@ func roundTrip(addr, req, want string) bool {
 
 var (
 	reDigits = regexp.MustCompile(`0x[0-9a-fA-F]+|[0-9]+`)
+	// data echoed in panic messages (arguments, quoted strings, indices) is not part of the class
+	reEcho = regexp.MustCompile("\\([^)]*\\)|\"[^\"]*\"|\\[[^\\]]*\\]|'[^']*'")
 )
 
 // crashInfo extracts (kind, message, site) from the worker's stderr/stdout and exit state.
@@ -355,7 +359,8 @@ func parseCrash(w *Worker) crashInfo {
 }
 
 func (c crashInfo) key(listener string) string {
-	msg := reDigits.ReplaceAllString(c.Msg, "N")
+	msg := reEcho.ReplaceAllString(c.Msg, "")
+	msg = reDigits.ReplaceAllString(msg, "N")
 	msg = strings.Map(func(r rune) rune {
 		switch {
 		case r >= 'a' && r <= 'z', r >= 'A' && r <= 'Z', r >= '0' && r <= '9', r == '.', r == '_':
